@@ -166,7 +166,11 @@ def run_rel(unit, only=None):
                 native = fmt == "msgpack" and any(l in ("bytes", "bytearray", "literal_bytes") for l in space.leaves_of(d))
                 if fmt in ("json", "msgpack", "yaml") and not native and _plain_json(enc) and not _loose_eq(parsed, enc, fmt):
                     V("format-document-differs", fmt, idx, f"value={v!r:.150} basic={enc!r:.150} parsed={parsed!r:.150}")
-                if back[0] == "ok" and bdec[0] == "ok" and _plain_json(enc) and not (
+                if native and space.has_kind(d, {"union", "pep604", "tvconstr", "opt", "optpipe"}):
+                    # msgpack passes bytes through on both sides, so WHICH union member accepts a given text differs from the base64
+                    # reading of the basic codec by the documented union resolution itself (as in C04)
+                    res.counters["skipped_union_with_native_bytes"] += 1
+                elif back[0] == "ok" and bdec[0] == "ok" and _plain_json(enc) and not (
                         ref.canon_unordered(back[1]) == ref.canon_unordered(bdec[1]) if fmt == "yaml"
                         else ref.same(back[1], bdec[1], dict_order=False)):
                     V("format-decode-differs", fmt, idx, f"value={v!r:.150} basic={_sh(bdec)} {fmt}={_sh(back)}")
